@@ -1115,6 +1115,46 @@ static void checkConditional(Rng& r, Ctx& c, const MeshCase& mc, const std::vect
     c.check("solve-residual-cg", key, cgRuleOk || relOk, std::min(ownrule / (4 * CGEPS), rel / (4 * std::sqrt(CGEPS))), 1,
             fmt("||r||=%.3g ||b||=%.3g ||r||/||b||=%.3g <r,r>/sum||b_k||=%.3g kappaUb=%.3g n=%d zscale=%.3g%s", (double)std::sqrt(r2cg), bnorm, rel, ownrule, kappaUb, N,
                 zscale, diag.c_str()));
+    // the same solve with the periodic restart of the conjugate gradient (ALinearOpMulti::setNIterRestart: the residual is
+    // recomputed from the current iterate every k iterations): same acceptance rule, judged only when the plain solve passed
+    if (cgRuleOk || relOk)
+    {
+      PrecisionOpMultiConditional p3;
+      bool ok3 = true;
+      for (int k = 0; k < K; k++) ok3 = ok3 && p3.push_back(blk[k].qmf, &proj) == 0;
+      if (ok3)
+      {
+        p3.setVarianceDataVector(var);
+        int kr = (c.icase % 2) ? 3 : 7;
+        p3.setNIterRestart(kr);
+        std::vector<std::vector<double>> x3(K, std::vector<double>(n, 0.));
+        p3.evalInverse(rhs1, x3);
+        LD r23, m3, ri3;
+        residual(flat(x3), &r23, &m3, &ri3);
+        double own3 = (double)(r23 / (LD)bnormBlocks), rel3 = (double)(std::sqrt(r23) / (LD)bnorm), ro3 = (double)(64. * N * EPS * m3);
+        bool okA = own3 <= 4 * CGEPS + ro3 * ro3 / bnormBlocks, okB = rel3 <= 4 * std::sqrt(CGEPS) + ro3 / bnorm;
+        std::string key3 = "C15:PrecisionOpMultiConditional::evalInverse:cg-residual:with-restart:" + kcls, diag3;
+        if (!okA && !okB)
+        {
+          // restarting every few iterations slows the conjugate gradient down: the same diagnosis as for the plain solve - does
+          // it converge when allowed more than the default 1000 iterations ? (then it is the known silent-return finding)
+          PrecisionOpMultiConditional p4;
+          for (int k = 0; k < K; k++) p4.push_back(blk[k].qmf, &proj);
+          p4.setVarianceDataVector(var);
+          p4.setNIterRestart(kr);
+          p4.setNIterMax(50000);
+          std::vector<std::vector<double>> x4(K, std::vector<double>(n, 0.));
+          p4.evalInverse(rhs1, x4);
+          LD r24, m4, ri4;
+          residual(flat(x4), &r24, &m4, &ri4);
+          bool conv = (double)(r24 / (LD)bnormBlocks) <= 4 * CGEPS + ro3 * ro3 / bnormBlocks || (double)(std::sqrt(r24) / (LD)bnorm) <= 4 * std::sqrt(CGEPS) + ro3 / bnorm;
+          if (conv) key3 = "C15:ALinearOpMulti::evalInverse:unconverged-at-default-nitermax-returned-silently";
+          diag3 = fmt(" ; with nitermax=50000: ||r||/||b||=%.3g %s", (double)(std::sqrt(r24) / (LD)bnorm), conv ? "(converged)" : "(still not converged)");
+        }
+        c.check("solve-residual-cg-restart", key3, okA || okB,
+                std::min(own3 / (4 * CGEPS), rel3 / (4 * std::sqrt(CGEPS))), 1, fmt("restart every %d iterations: ||r||/||b||=%.3g%s", kr, rel3, diag3.c_str()));
+      }
+    }
   }
 
   // ---- the operators behind krigingSPDENew: SPDEOp (matrix-free) and SPDEOpMatrix apply Q + P' N P  -------------
@@ -1165,6 +1205,29 @@ static void checkConditional(Rng& r, Ctx& c, const MeshCase& mc, const std::vect
         spdeOpOk = c.check("spdeop-evalDirect", key, q <= 1, q, 1, q <= 1 ? "" : fmt("i=%d y=%.10g (Q+P'NP)x=%.10g Qx=%.10g", w, y[w], (double)want[w], (double)qx[w]));
       }
       else c.truth("spdeop-evalDirect", "C15:SPDEOp:size:" + kcls, false);
+      // SPDEOp::kriging and SPDEOp::krigingWithGuess solve (Q + P'NP) x = P'N z with Eigen's conjugate gradient (relative
+      // residual tolerance set below): both returned vectors must satisfy the system, whatever the initial guess.
+      // Evaluated only when the iteration cap cannot bite (same rule as krigingSPDENew below).
+      if (spdeOpOk && kappaUb <= 1e6 && bnorm > 0)
+      {
+        opFree.setTolerance(1e-9);
+        opFree.setMaxIterations(20000);
+        Rng r2(c.seed, "C15guess", (uint64_t)c.icase);
+        std::vector<double> guess(n);
+        double xscale = zscale;
+        for (auto& v : guess) v = xscale * r2.normal();
+        auto relres = [&](const VectorDouble& x) -> double {
+          if ((int)x.size() != n) return INFINITY;
+          std::vector<LD> xl2 = toLD(SV(x)), ax = applyA(xl2, false);
+          LD s2 = 0;
+          for (int i = 0; i < n; i++) { LD d = ax[i] - bref[i]; s2 += d * d; }
+          return (double)(std::sqrt(s2) / (LD)bnorm);
+        };
+        double r0 = relres(opFree.kriging(VD(z))), r1 = relres(opFree.krigingWithGuess(VD(z), VD(guess)));
+        // slack 1e3 over the requested 1e-9 (drift between the recurrence and the true residual, round-off of the products)
+        c.check("spdeop-kriging-residual", "C15:SPDEOp:kriging:residual:" + kcls, r0 <= 1e-6, r0, 1e-6);
+        c.check("spdeop-krigingWithGuess-residual", "C15:SPDEOp:krigingWithGuess:residual:" + kcls, r1 <= 1e-6, r1, 1e-6);
+      }
     }
   }
 
